@@ -220,17 +220,17 @@ type exec struct {
 	baseRV   int64 // the store's resource version before any object of the package existed
 	// staleRevRV != 0: the revision controller reads revisions as of this resource version
 	staleRevRV int64
-	c        *kit.Ctx
-	caseName string
-	desc     any
-	w        *sim.World
-	cl       *sim.Client
-	hc       cacheLikeClient
-	setup    *sim.Client
-	est      *revision.APIEstablisher
-	kind     *pkgKind
-	mon      *monitor
-	conc     int
+	c          *kit.Ctx
+	caseName   string
+	desc       any
+	w          *sim.World
+	cl         *sim.Client
+	hc         cacheLikeClient
+	setup      *sim.Client
+	est        *revision.APIEstablisher
+	kind       *pkgKind
+	mon        *monitor
+	conc       int
 
 	pkg         string // name of the package under test
 	pkgUID      string
